@@ -607,4 +607,82 @@ example : (run ⟨[exNested], []⟩ [.marshal 0, .unmarshal 0, .marshal 1]).1.co
     C17_partial_roundtrip exNested (by decide) (by decide) (by decide), List.nil_append]
   rfl
 
+/-! ## the order of the serialised code list
+
+`codeFromState` is NOT indifferent to the order of `state.Code`: it resolves `parent_id` among
+the code objects it has already created and returns the first one as the entry point.  The
+property therefore demands of the marshaller that the list is written in ONE order, parents
+first — the Flatten order (`stateFromCode_code_order`, `marshal_code_order`); the harness
+evaluates this on the real bytes of every program and feeds the real loader the real bytes
+with the list permuted, comparing its verdict with `unmarshal ∘ State.reorder`. -/
+
+/-- **Spec of the file order**: the code list `stateFromCode` writes is the Flatten sequence
+    of the tree, id by id — for every program (any number of code objects). -/
+theorem stateFromCode_code_order (p : Prog) : (stateFromCode p).codeIds = flattenIds p := by
+  simp only [State.codeIds, stateFromCode, flattenIds, List.map_filterMap, Option.map_map]
+  rfl
+
+/-- the same of the bytes: the ids of the marshalled list are the (JSON-encoded) ids of the
+    Flatten sequence, in that order. -/
+theorem marshal_code_order (p : Prog) : (marshal p).codeIds = (flattenIds p).map encStr := by
+  rw [← stateFromCode_code_order]
+  simp only [marshal, encodeState, State.mapStr, State.codeIds, List.map_map]
+  rfl
+
+/-- taking the list in its own order changes nothing -/
+theorem reorder_range (s : State) : (s.reorder (List.range s.code.length)).code = s.code := by
+  have h := range_filterMap_getElem? (fun d : CodeDef => d) s.code
+  simpa [State.reorder] using h
+
+/-- **The loader keeps the order of the file**: whenever `codeFromState` succeeds, the code
+    objects of the result are those of the list, in the order of the list. -/
+theorem codeFromState_ids (st : State) (p : Prog) (h : codeFromState st = .ok p) :
+    p.nodes.map (·.id) = st.codeIds := by
+  unfold codeFromState at h
+  split at h
+  · exact absurd h (by simp)
+  · rename_i ns hb
+    split at h
+    · exact absurd h (by simp)
+    · split at h
+      · exact absurd h (by simp)
+      · simp only [Except.ok.injEq] at h
+        subst h
+        have := build_ids st.table st.code [] ns hb
+        simpa [relinkNodes_ids, State.codeIds] using this
+
+/-- **The entry point is whatever comes first**: the code object `UnmarshalCode` hands back
+    (`codes[0]`) is the first element of the list, root or not. -/
+theorem codeFromState_entry (st : State) (p : Prog) (h : codeFromState st = .ok p) :
+    p.nodes.head?.map (·.id) = st.code.head?.map (·.id) := by
+  have := congrArg List.head? (codeFromState_ids st p h)
+  simpa [State.codeIds, List.head?_map] using this
+
+/-- **A child before its parent is rejected**: a list in which some code object names a parent
+    that does not come EARLIER in the list is never loaded — whatever else the list holds.
+    (So a marshaller may not write the list in any order but parents-first.) -/
+theorem codeFromState_child_before_parent (st : State) (h : st.childBeforeParent = true) :
+    ∀ p, codeFromState st ≠ .ok p := by
+  intro p hp
+  unfold codeFromState at hp
+  split at hp
+  · exact absurd hp (by simp)
+  · rename_i ns hb
+    exact build_orphan_fails st.table st.code [] (by simpa [State.childBeforeParent] using h) ns hb
+
+theorem unmarshal_child_before_parent (w : State) (h : (decodeState w).childBeforeParent = true) :
+    ∀ p, unmarshal w ≠ .ok p :=
+  codeFromState_child_before_parent (decodeState w) h
+
+theorem unmarshal_entry (w : State) (p : Prog) (h : unmarshal w = .ok p) :
+    p.nodes.head?.map (·.id) = (decodeState w).code.head?.map (·.id) :=
+  codeFromState_entry (decodeState w) p h
+
+-- the nested example: its file is [root, outer, inner]; with the inner function first the
+-- loader fails on the parent id, with the list reversed too; in its own order it loads
+example : ((marshal exNested).reorder [0, 2, 1]).childBeforeParent = true := by decide
+example : ((marshal exNested).reorder [2, 1, 0]).childBeforeParent = true := by decide
+example : ((marshal exNested).reorder [0, 1, 2]).childBeforeParent = false := by decide
+example : (marshal exNested).codeIds = (flattenIds exNested).map encStr := marshal_code_order exNested
+
 end Risor.C17
